@@ -96,6 +96,66 @@ def _nextlife_chunk(args):
     tot["actions"] = acts
     return tot, dis
 
+def stepdata_check(seed, n):
+    """the real `BodyFormula.translate` / `add_atom` / `StepData.add_literal` vs the model `StepData.run` (TelModel/StepData.lean) on
+    random sequences of registrations of occurrence literals and translations of one (formula, step) pair; the formula is a
+    stub whose `do_translate` provides the literal the way the real classes do (`add_literal`, or an assignment)"""
+    import telingo.theory.body as bd
+    r = random.Random(seed)
+    MODEL = tl.LeanExe("telmodel")
+    class Backend:
+        def __init__(self):
+            self.out, self.fresh = [], None
+        def add_atom(self, *a):
+            return self.fresh
+        def add_rule(self, head, body, choice=False):
+            self.out.append("(choice {})".format(head[0]) if choice else "(" + " ".join(str(x) for x in body) + ")")
+    class Ctx:
+        pass
+    class Stub(bd.BodyFormula):
+        def do_translate(self, ctx, step, data):
+            if data.literal is None:
+                kind, val = self.src
+                if kind == "own":
+                    ctx.backend.fresh = val
+                    data.add_literal(ctx.backend)
+                else:
+                    data.literal = val
+    seqs, lines, impl = [], [], []
+    for i in range(n):
+        pool = r.sample([1, 2, 3, 4, 5, 6, 7, -2, -5, 11], r.randint(1, 5))
+        ops = []
+        for j in range(r.randint(0, 10)):
+            if r.random() < 0.6:
+                ops.append(("add", r.choice(pool)))
+            elif r.random() < 0.6:
+                ops.append(("own", 100 + j))
+            else:
+                ops.append(("assign", r.choice([r.choice(pool), 50 + j, -(50 + j)])))
+        ctx = Ctx(); ctx.backend = Backend()
+        f = Stub("stub"); step = r.randint(0, 3)
+        rets = []
+        for kind, val in ops:
+            if kind == "add":
+                f.add_atom(val, step)
+            else:
+                f.src = (kind, val)
+                rets.append(f.translate(ctx, step))
+        data = f._BodyFormula__data.get(step, bd.StepData())
+        ints = lambda l: "(" + " ".join(str(x) for x in l) + ")"
+        got = "{} {} {} ({})".format("none" if data.literal is None else data.literal, ints(sorted(data.literals)), ints(data.todo),
+                                     " ".join(ctx.backend.out))
+        seqs.append(ops); impl.append(got)
+        lines.append(tl.sexp(("stepdata",) + tuple(ops)))
+        if rets and any(x != data.literal for x in rets):
+            impl[-1] += " returned " + str(rets)
+    outs = MODEL.batch(lines)
+    dis = []
+    for ops, mo, got in zip(seqs, outs, impl):
+        if " ".join(mo.split()) != got:
+            dis.append({"layer": "L4-stepdata", "text": "add_atom / translate sequence " + str(ops), "model": mo, "impl": got})
+    return len(seqs), dis
+
 def correspondence(ctx):
     n = 60 if ctx.tier == "quick" else 1200
     H = 3
@@ -130,6 +190,9 @@ def correspondence(ctx):
             life["actions"][k] = life["actions"].get(k, 0) + v
         dis += d
     tot["next_placeholder_life"] = life
+    nsd, sdis = stepdata_check(ctx.seed * 211 + 17, 400 if ctx.tier == "quick" else 6000)
+    tot["stepdata_call_sequences"] = nsd
+    dis += sdis
     return tot, dis
 
 def corpus_cases():
